@@ -15,7 +15,7 @@ func init() {
 		if err != nil {
 			return err
 		}
-		for _, n := range []string{"FlowControlError", "FinalSizeError", "ProtocolViolation", "CryptoBufferExceeded", "InternalError"} {
+		for _, n := range []string{"FlowControlError", "FinalSizeError", "ProtocolViolation", "CryptoBufferExceeded", "InternalError", "StreamStateError", "StreamLimitError"} {
 			if err := c.EmitIntConst(w, q, n, n); err != nil {
 				return err
 			}
